@@ -93,7 +93,8 @@ def gen():
     w("## Contracts for the 14 v5 property sets: Encodable::{encode, encode_len} and decode_async")
     w("")
     for name, mod, props, is_will in SETS:
-        w("@type %s::%s" % (mod, name))
+        w("@type %s::%s #[derive(PartialEq, Eq, Default)]" % (mod, name))
+        w("@derived %s::%s PartialEq Default" % (mod, name))
     w("")
     w("@spec")
     for name, mod, props, is_will in SETS:
